@@ -11,7 +11,7 @@ T2100 = 4102444800
 NAMED_RATES = [
     (1, 1), (100, 1), (200, 3), (44100, 1), (1000000, 1), (1000000, 3), (100000000, 7),
     (30000000, 1001), (4294967295, 1000003), (1, 10), (1000, 1), (48000, 1), (125, 2), (999983, 1000),
-    (10, 3), (1001, 7),
+    (10, 3), (1001, 7), (25000000, 1), (10000000, 1), (100000000, 1), (20000000, 1),
 ]
 CADENCES = [1, 2, 5, 10, 40, 100, 250, 400, 1000, 2000, 60000, 3600000]
 
@@ -91,6 +91,10 @@ def rf_configs(draw, spf_cap=4096, boundary_p=0.6, force=None):
         base = rfmodel.first_sample(cfg, js * S * 1000)
         delta = draw(st.sampled_from([0, 1, 2, spf, 1 + spf // 2, 3]))
         start = base - delta
+    elif u < int(boundary_p * 100) + 25:
+        # a few samples around a whole second (start timestamps, second-resolution names)
+        t = draw(st.integers(T1980, T2100 - 86400))
+        start = rfmodel.ceil_div(t * n, d) - draw(st.sampled_from([0, 1, 1, 2, 3, -1]))
     else:
         t = draw(st.integers(T1980, T2100 - 86400))
         start = (t * n) // d + draw(st.integers(0, max(0, spf - 1)))
